@@ -98,7 +98,8 @@ LISTEXT = {
   "Marwood.Proofs.C13.demo_every_slicing"
  ],
  "C07": [
-  "Marwood.Proofs.C07.failed_eval_equivalent_later_listExt"
+  "Marwood.Proofs.C07.failed_eval_equivalent_later_listExt",
+  "Marwood.Proofs.C07.failed_eval_equivalent_later_installs_listExt"
  ],
  "C04": [
   "Marwood.Proofs.C04.tail_loop_sp_listExt"
@@ -117,6 +118,69 @@ LISTEXT = {
   "Marwood.Proofs.C12.slice_alloc_bound_listExt"
  ]
 }
+
+# final round (work package wp17): session forms over HistInstalls (Lemmas/ListExtSession.lean) - for a whole history of
+# eval calls with prepare_eval explicit, from IdleOk of the INITIAL state and RecSized only, every accepted job satisfies
+# the conclusions of gc_unobservable(_value)_listExt / sliced_(value|error)_eq_uninterrupted_listExt. The module imports
+# Lemmas/PrepareHistory.lean, ListExtC03/C07/C13.lean and PrepareDemo.lean, so it is appended to the MODULE list of
+# c03.py / c13.py / c07.py (every module of the list is imported by the axiom audit).
+LISTEXT_SESSION_MODULE = "Marwood.Lemmas.ListExtSession"
+LISTEXT_SESSION = {
+ "common": [
+  "Marwood.Lemmas.Good.histInstalls_ok",
+  "Marwood.Proofs.C03.session_jobs_hyps_listExt",
+  "Marwood.Lemmas.Good.SDemo.stEq_sound",
+  "Marwood.Lemmas.Good.SDemo.evalSizeBounded_of_closed",
+  "Marwood.Lemmas.Good.SDemo.p0_evalSizeBounded",
+  "Marwood.Lemmas.Good.SDemo.demo_hist",
+  "Marwood.Lemmas.Good.Demo.demo_installs"
+ ],
+ "C03": [
+  "Marwood.Proofs.C03.session_gc_unobservable_listExt",
+  "Marwood.Proofs.C03.session_gc_unobservable_rel_listExt",
+  "Marwood.Proofs.C03.demo_session_every_schedule"
+ ],
+ "C13": [
+  "Marwood.Proofs.C13.session_sliced_eq_uninterrupted_listExt",
+  "Marwood.Proofs.C13.session_sliced_error_eq_uninterrupted_listExt",
+  "Marwood.Proofs.C13.demo_session_every_slicing"
+ ],
+ "C07": [
+  "Marwood.Lemmas.Good.SDemo.fail_installs",
+  "Marwood.Lemmas.Good.SDemo.fail_evalSizeBounded",
+  "Marwood.Lemmas.Good.SDemo.fail_eval",
+  "Marwood.Proofs.C07.demo_failed_installs_listExt"
+ ]
+}
+
+
+def listext_session(prop):
+    return LISTEXT_SESSION["common"] + LISTEXT_SESSION[prop]
+
+
+LISTEXT_SESSION_NOTE = (
+    " FINAL ROUND (session forms at real builtins, Lemmas/ListExtSession.lean): for a history HistInstalls (listExtWith "
+    "eqTag) force s0 recs sf (prepare_eval a step of its own: Installs / InstallsGarbage) from an IdleOk initial state with "
+    "the size bounds RecSized, EVERY accepted job's evaluation satisfies the per-evaluation theorems: "
+    "session_gc_unobservable_listExt (any schedule of collections returns the value of the collection-free run; "
+    "_rel: same status in Sim-related states), session_sliced_eq_uninterrupted_listExt / _error_ (any sequence of positive "
+    "budgets gives the same value / the same failure). No hypothesis about builtins, none about any later state "
+    "(histInstalls_ok supplies VmOkP of every prepared state). Non-vacuity: demo_session_every_schedule / "
+    "demo_session_every_slicing run the one-job session of Demo.demo_installs (the form #t, 7 instructions; RecSized proved "
+    "by enumerating the 16 states reachable under any interleaving of collections - three of four cells in use, so the "
+    "utilisation-tested collector really collects) through the theorems. Still carried by the stream prepare-installs of "
+    "C07 only: that the real prepare_eval is related by Installs."
+)
+
+LISTEXT_SESSION_NOTE_C07 = (
+    " FINAL ROUND (T07.4 with prepare_eval explicit at real builtins): failed_eval_equivalent_later_installs_listExt "
+    "(Lemmas/ListExtC07.lean) = failed_eval_equivalent_later_installs at listExtWith eqTag: IdleOk of the state before the "
+    "failing job, Installs for the three prepare_eval steps, SizeBounded, CompLaws comp (inherent to the two-heap "
+    "statement); no ExtLaws/ExtGood/ExtCodeLawsV/ExtProc hypothesis. Non-vacuity (Lemmas/ListExtSession.lean): "
+    "demo_failed_installs_listExt - the form (#t) on the idle demo machine (fail_installs: Installs through installsB_sound "
+    "by kernel evaluation) fails with InvalidProcedure at its TCALL (fail_eval), every hypothesis is discharged and the "
+    "theorem is applied."
+)
 
 
 def listext_module(prop):
